@@ -355,6 +355,17 @@ def check(ctx: Ctx):
     empty.check_optional_dim(ctx)
     empty.check_slice_stop_index(ctx)
     empty.check_unbound(ctx)
+    empty.check_amplitude_reductions(ctx)
+    # optional sequence arguments of the collection constructors (documented as lists or arrays) are tested with `is None`:
+    # the truth value of an array with more than one element raises ValueError, an empty list is not "unset"
+    from ..rules import nonetest as _nonetest
+
+    for q_, names_ in (("droplets.emulsions.EmulsionTimeCourse.__init__", ("times", "emulsions")), ("droplets.droplet_tracks.DropletTrack.__init__", ("times",))):
+        if ctx.model.has_func(q_):
+            for nm_ in names_:
+                _nonetest.check(ctx, ctx.model.func(q_), nm_, f"the optional argument `{nm_}` (a list or an array)")
+    # not armed: `if droplets:` in DropletTrack.__init__ — the argument is documented as a list of droplets and the test only skips an empty loop
+    ctx.expect("NONETEST", 3)
     ctx.expect("UNBOUND", 1)
     from ..rules import purity as _pur
 
@@ -436,7 +447,7 @@ def check(ctx: Ctx):
     ctx.expect("METRIC", 2)
     ctx.expect("WIDTH", 4)
     ctx.expect("TOTAL", 5)
-    ctx.expect("EMPTY", 9)
+    ctx.expect("EMPTY", 10)
     ctx.expect("ARITY", 3)
     ctx.expect("DIV0", 1)
     ctx.expect("DIMGUARD", 4)
